@@ -291,7 +291,7 @@ def scenario_eval(rng, T, d, B):
 
 def exact_tier(ck, Ts):
     rng = ck.rng
-    ngroups = ck.n(44, 260)
+    ngroups = ck.n(44, 900)
     B = Batch()
     aliasing = []
     plan = (["linear"] * 3 + ["product"] * 4 + ["linmap"] * 2 + ["construct"] + ["reduce"] * 2 + ["eval"] * 2 + ["overflow"])
@@ -365,7 +365,7 @@ def absscale(cl, r):
 def float_tier(ck, Ts):
     rng = ck.rng
     nr = ck.nprng(16)
-    ntr = ck.n(120, 1500)
+    ntr = ck.n(120, 6000)
     worst = 0.0
     nsamp = 0
     for it in range(ntr):
